@@ -1276,3 +1276,131 @@ Proof.
   rewrite (G (index s) (incl_refl _)). reflexivity.
 Qed.
 
+(* ================================================================== the rows of `values` are pairwise different variables *)
+Section RowNames.
+  Variable pycast : dtype -> pyval -> outcome pyval.
+  Variable arrcast : dtype -> dtype -> pyval -> outcome pyval.
+  Variable infer : list pyval -> dtype.
+  Variable astype_dt : dtype -> list pyval -> dreq -> dtype.
+  Variable itemseq_exn : dtype -> exn.
+  Notation step := (step pycast arrcast infer astype_dt itemseq_exn).
+  Notation run := (run pycast arrcast infer astype_dt itemseq_exn).
+  Notation add_variable := (add_variable pycast arrcast infer astype_dt).
+  Notation base_add_variable := (base_add_variable pycast arrcast infer astype_dt).
+  Notation init_model := (init_model pycast arrcast infer astype_dt).
+  Notation init_vars := (init_vars pycast arrcast infer astype_dt).
+
+  Lemma step_names o s :
+    names (fst (step o s)) = names s \/
+    exists name v dt, o = AddVariable name v dt /\ names (fst (step o s)) = names s ++ [name] /\ mem name (index s) = false.
+  Proof.
+    destruct o as [name v dt|name v hint|k v|kvs|name v|q]; simpl.
+    - destruct (add_variable name v dt s) as [s' [u|e]] eqn:A.
+      + pose proof (add_variable_appends pycast arrcast infer astype_dt name v dt s s' u A) as [_ N].
+        pose proof (add_variable_ret pycast arrcast infer astype_dt name v dt s s' u A) as [_ [M _]].
+        simpl. destruct (kind s); [left; rewrite N, app_nil_r; reflexivity| |];
+          (right; exists name, v, dt; split; [reflexivity|split; [exact N|exact M]]).
+      + apply add_variable_err in A. subst. left. reflexivity.
+    - left. exact (proj2 (setattr_ki pycast arrcast infer name v hint s)).
+    - left. exact (proj2 (setitem_ki pycast arrcast infer itemseq_exn k v s)).
+    - left. exact (proj2 (replace_values_ki pycast arrcast infer itemseq_exn kvs s)).
+    - left. exact (proj2 (add_attribute_ki pycast arrcast infer name v s)).
+    - left. rewrite read_frame. reflexivity.
+  Qed.
+
+  (* InvU: for models / linkers `names` holds no name twice *)
+  Definition InvU (s : state) : Prop := kind s <> CVC -> NoDup (names s).
+
+  Theorem step_preserves_invU o s : Inv s -> InvU s -> InvU (fst (step o s)).
+  Proof.
+    intros I U K'.
+    assert (K : kind s <> CVC).
+    { destruct (good_span _ _ (step_good pycast arrcast infer astype_dt itemseq_exn o s)) as [_ E]. rewrite <- E. exact K'. }
+    destruct (step_names o s) as [E|[name [v [dt [_ [E M]]]]]]; rewrite E; [exact (U K)|].
+    apply nodup_snoc; [exact (U K)|]. apply mem_false in M. intros C. apply M. apply (proj2 I K). exact C.
+  Qed.
+
+  Theorem reachable_invU ops : forall s, Inv s -> InvU s -> InvU (run ops s).
+  Proof.
+    induction ops as [|o ops IH]; intros s I U; simpl; [exact U|].
+    apply IH; [apply step_preserves_inv; exact I|apply step_preserves_invU; assumption].
+  Qed.
+
+  (* hence: the rows of `values` (index for a container, names for a model) are pairwise different on every reachable object *)
+  Theorem row_names_nodup s : Inv s -> InvU s -> NoDup (row_names s).
+  Proof.
+    intros I U. unfold row_names. destruct (kind s) eqn:K; [exact (proj1 (proj1 I))| |]; apply U; congruence.
+  Qed.
+
+  Lemma dup_free_nodup l : dup_free l = true -> NoDup l.
+  Proof.
+    induction l as [|x l IH]; simpl; intros H; constructor.
+    - apply andb_true_iff in H as [H _]. apply negb_true_iff in H. apply mem_false. exact H.
+    - apply IH. apply andb_true_iff in H as [_ H]. exact H.
+  Qed.
+
+  Lemma init_vars_names nms ivs default d : forall s, names (fst (init_vars nms ivs default d s)) = names s.
+  Proof.
+    induction nms as [|x nms IH]; intros s; simpl; [reflexivity|].
+    pose proof (base_add_variable_index pycast arrcast infer astype_dt x (match assoc x ivs with Some v => v | None => default end) (Some d) s) as [_ N].
+    destruct (base_add_variable x (match assoc x ivs with Some v => v | None => default end) (Some d) s) as [s' [u|e]]; simpl in *; [|exact N].
+    rewrite IH. exact N.
+  Qed.
+
+  (* a constructed model / linker: `names` is the class's NAMES, which the constructor has checked for duplicates *)
+  Theorem init_model_names k sp st d default NAMES ivs s u :
+    init_model k sp st d default NAMES ivs = (s, Ret u) -> names s = NAMES /\ NoDup NAMES.
+  Proof.
+    intros H. unfold Container.init_model in H.
+    apply bind_ret in H as (s1 & u1 & H1 & H).
+    apply bind_ret in H as (s2 & u2 & H2 & H).
+    apply bind_ret in H as (s3 & u3 & H3 & H).
+    destruct (negb (dup_free NAMES)) eqn:DF; [inversion H|].
+    match type of H with context [if ?c then _ else _] => destruct c end; [inversion H|].
+    apply bind_ret in H as (s4 & u4 & H4 & H).
+    apply bind_ret in H as (s5 & u5 & H5 & H).
+    apply bind_ret in H as (s6 & u6 & H6 & H).
+    apply bind_ret in H as (s7 & u7 & H7 & H).
+    apply bind_ret in H as (s8 & u8 & H8 & H).
+    apply bind_ret in H as (s9 & u9 & H9 & H).
+    split; [|apply dup_free_nodup; apply negb_false_iff; exact DF].
+    assert (N5 : names s5 = NAMES).
+    { pose proof (init_vars_names NAMES ivs default d (set_names s4 NAMES)) as N. rewrite H5 in N. exact N. }
+    assert (KA : forall nm v sa sb ub, add_attribute pycast arrcast infer nm v sa = (sb, Ret ub) -> names sb = names sa).
+    { intros nm v sa sb ub E. pose proof (proj2 (add_attribute_ki pycast arrcast infer nm v sa)) as N. rewrite E in N. exact N. }
+    assert (N9 : names s9 = NAMES).
+    { rewrite (KA _ _ _ _ _ H9), (KA _ _ _ _ _ H8), (KA _ _ _ _ _ H7), (KA _ _ _ _ _ H6). exact N5. }
+    destruct k; [inversion H; subst; exact N9|rewrite (KA _ _ _ _ _ H); exact N9|inversion H; subst; exact N9].
+  Qed.
+End RowNames.
+
+(* ================================================================== strict=True and writes through aliases *)
+Section StrictAlias.
+  Variable pycast : dtype -> pyval -> outcome pyval.
+  Variable arrcast : dtype -> dtype -> pyval -> outcome pyval.
+  Variable infer : list pyval -> dtype.
+  Variable astype_dt : dtype -> list pyval -> dreq -> dtype.
+  Variable itemseq_exn : dtype -> exn.
+  Notation alias_step := (gen_alias_step pycast arrcast infer astype_dt itemseq_exn).
+
+  (* an alias of a variable is as good as the variable under strict=True: attribute and item assignment reach the series *)
+  Theorem alias_update_keeps_working am a value hint s :
+    mem (resolve am a) (index s) = true ->
+    alias_step am (SetAttr a value hint) s = setattr_var pycast arrcast (resolve am a) value s /\
+    alias_step am (SetItem (KName a) value) s = setattr_var pycast arrcast (resolve am a) value s.
+  Proof.
+    intros M. unfold gen_alias_step. simpl.
+    exact (strict_updates_keep_working pycast arrcast infer itemseq_exn (resolve am a) value hint s M).
+  Qed.
+
+  (* a name that resolves to no variable and no registered attribute cannot create anything under strict=True *)
+  Theorem alias_strict_blocks_new_attributes am a value hint s :
+    strict s = true -> resolve am a <> "strict" ->
+    mem (resolve am a) (index s) = false -> reg_mem (resolve am a) (registry s) = false ->
+    alias_step am (SetAttr a value hint) s =
+      (s, Raise (match alternatives hint (row_names s) with _ :: _ :: _ => NotImplementedError | _ => AttributeError end)).
+  Proof.
+    intros S N M R. unfold gen_alias_step. simpl.
+    exact (strict_blocks_new_attributes pycast arrcast infer (resolve am a) value hint s S N M R).
+  Qed.
+End StrictAlias.
